@@ -159,6 +159,7 @@ func TestC12(t *testing.T) {
 	r := newRun(t, "C12", "exploration")
 	defer r.Finish(t)
 	r.Rule = "cases = generated limit scenarios with element counts in {0,1,Q-1,Q,Q+1,kQ,kQ+-1,random}, Quantity 1..1000 incl. 1, input capacity 0..n; oracle offline: output sequence = input sequence, output closes, closure not before the input was closed (both clocks); on the fake clock with a ready consumer: (1) total count < Quantity, any arrival pattern: every element is received at the very instant its write started; (2) all N elements up-front: element i received by floor(i/Q)*Interval + Interval/100, and with the input closed before creation the output closes by ceil(N/Q)*Interval + Interval/100; (3) any arrival pattern: element j leaves no later than max(its write start, departure of j-1, departure of j-Quantity + Interval) + Interval/100 - later means an available element was held although fewer than Quantity had passed in the last Interval. (4) the output closes no later than max(last departure, input close) + Interval/100, plus one Interval only when the element count is a multiple of Quantity (the documented final delay). Quantity also takes 'unlimited' values around 2^63 and 2^64-1. non-trivial = scenario in which form (1) or (2) applied, or >= 2 batches were passed through; distinct by scenario fingerprint"
+	r.Rule += " | also oracle (5): a reference model of the portion pacing (arrival, predecessor, portion start, room in the output, the consumer's own call) bounds every receive for ANY consumer on the fake clock"
 	r.Assumptions = []string{"testing/synctest fake clock of go1.26.8", "only the two timing forms the property states are asserted, not a timed model of the current loop"}
 	r.Floor = 20
 	if replayLimit(t, r) {
